@@ -279,7 +279,7 @@ class SimA(Simulator):
         cuts = [i for i, ch in enumerate(joined) if ch == "_"]
         spelling = None
         if rng.random() < 0.3:
-            b = rng.choice(["lab pc", "a/b", "x%y", "m&n", "q?r", "t+z", "k#1"])
+            b = rng.choice(["lab pc", "lab pc", "a/b", "x%y", "m&n", "q?r", "t+z", "k#1"])
             spelling = (b, next(c for c in b if not c.isalnum()))
         for i in range(rng.randint(2, 4)):
             if rng.random() < 0.5:
@@ -288,8 +288,15 @@ class SimA(Simulator):
             elif spelling is not None:
                 # names that differ only in how a character is spelled: literally, or as the escape an id encoder produces
                 base, ch = spelling
-                comp = base if rng.random() < 0.5 else base.replace(ch, "%%%02X" % ord(ch))
-                uod = rng.choice(["u", "u", "uod 1", "uod%201"])
+                v = rng.random()
+                if v < 0.4:
+                    comp = base
+                elif v < 0.7 or ch != " ":
+                    comp = base.replace(ch, "%%%02X" % ord(ch))
+                else:
+                    # ... or in its white space: a doubled blank, a tab for a blank, a trailing blank
+                    comp = rng.choice([base.replace(" ", "  "), base.replace(" ", "\t"), base + " ", " " + base])
+                uod = rng.choice(["u", "u", "uod 1", "uod%201", "uod  1"])
             else:
                 comp = "".join(rng.choice(NAME_ALPHABET) for _ in range(rng.randint(1, 2)))
                 uod = "".join(rng.choice(NAME_ALPHABET) for _ in range(rng.randint(1, 2)))
